@@ -289,6 +289,10 @@ def c13(c):
     c.transitions += st
     c.notes.append("LazyVar: TLC enumerated %d call sequences over {compress, cs, value, double_in_place, negate, +=, -=} from both initial states; all replayed into the real gadget" % n)
     c.exhaustive_parts.append("every sequence of <= 4 (thorough: 5) accessor / in-place-operation calls x {from encoding, from element}; pure accessor sequences also on identity / invalid / random inputs")
+    for cmd in apalache_inductive("LazyVarInd.tla", "Init", "IndInit", "IndInv", "Safety"):
+        c.tlc_cmds.add(cmd)
+    c.notes.append("LazyVarInd: cache coherence / single transition per value / pair completeness hold for UNBOUNDED call sequences "
+                   "(inductive invariant discharged by Apalache: Init => IndInv, IndInv /\\ Next => IndInv', IndInv => Safety)")
     c.trace("ark", "lazy", 0, plan, **RT)
     c.trace("ark", "gadgets", scale(c.tier, 40, 1500), **RT)
     return c.finish(rule="distinct (gadget, allocation mode) combinations synthesised honestly plus distinct forcing sequences")
@@ -314,7 +318,7 @@ def c15(c):
 def c16(c):
     build("ark")
     # one TLC run per trace: the observation tables must span the whole history
-    pts = os.path.join(WORK, "g1pts.ndjson")
+    pts = os.path.join(WORK, "g1pts_%d.ndjson" % os.getpid())
     r = subprocess.run([sys.executable, os.path.join(VERIF, "tools", "g1_points.py"), pts, str(scale(c.tier, 40, 2000)), str(seed())],
                        capture_output=True, text=True)
     if r.returncode != 0:
